@@ -203,7 +203,9 @@ def b_step(ctx, prog):
     pops = [bb for bb, t in K.calls(rp) if (F.callee_key(t) or "").endswith("::pop")]
     ctx.require(len(pops) == 1, "B-STEP: the concatenation loop of receive_packet was not found")
     try:
-        ex = S.Extractor(prog, (), effects=True, max_nodes=80000)
+        # private helpers of the module (e.g. an extracted `data_octets(header)`) are part of the procedure
+        helpers = [k for k, b_ in prog.bodies.items() if k.startswith("elvis_core::protocols::ipv4::reassembly::segment::") and b_.kind == "fn" and "::tests" not in k]
+        ex = S.Extractor(prog, helpers, effects=True, max_nodes=80000)
         ex.stop = set(pops)
         ex._params = S.params_of(rp)
         t = ex._block(rp, 0, {i + 1: a for i, a in enumerate(S.params_of(rp))}, (), 0)
